@@ -1,6 +1,6 @@
 (* C19 tie, re-checked on every run: the observations of the compiled library on this run's pairs
    (Tables/EqOrdCasesGen.v, generated) equal the model's, evaluated by the kernel. *)
-From Verif Require Import EqOrdRun EqOrdDescRun EqOrdCasesGen.
+From Verif Require Import EqOrdRun EqOrdDescRun EqOrdPolRun EqOrdCasesGen.
 
 Theorem cases_match_model : forallb dom_pairs_ok doms && deqdom_ok ddom_eq = true.
 Proof. vm_compute. reflexivity. Qed.
@@ -9,4 +9,7 @@ Theorem hash_streams_match_model : forallb dom_streams_ok doms = true.
 Proof. vm_compute. reflexivity. Qed.
 
 Theorem dumps_distinct_in_model : forallb dom_spec_ok doms = true.
+Proof. vm_compute. reflexivity. Qed.
+
+Theorem policy_cases_match_model : forallb poldom_ok poldoms = true.
 Proof. vm_compute. reflexivity. Qed.
